@@ -27,6 +27,7 @@ fn main() {
     common::main_loop(|kind, args| match kind {
         "hist" => hist(args),
         "histsweep" => histsweep(args),
+        "cdr" => cdr(args),
         "sched" => sched(args),
         "sanasync" => sanasync(args),
         _ => format!("unknown-kind {kind}"),
@@ -471,6 +472,46 @@ fn hist(args: &[&str]) -> String {
     } else {
         sync_stack(stack, data, 0, &mut it, HistSync(ops))
     }
+}
+
+/// cdr <depth> <stack> <caps|-> <hexdata> <ops>: webpsan's ChunkDataReader driven directly (hook `webpsan::verif_reader`).
+/// A ChunkReader (its own std BufReader(8)) over the sync stack reads the chunk header at the start of the data; with depth 2
+/// a child ChunkReader over that chunk's data reads a nested header; the history then runs on the (innermost) data reader.
+#[cfg(verif_readerhook)]
+struct CdrJob(usize, Vec<Op>);
+#[cfg(verif_readerhook)]
+impl SyncJob for CdrJob {
+    fn run<R: Read + Skip + Unpin>(self, r: R) -> String {
+        use mediasan_common::parse::FourCC;
+        use webpsan::verif_reader::ChunkReader;
+        let mut top = ChunkReader::new(r, FourCC::from_str("RIFF"));
+        if top.read_any_header().is_err() {
+            return "hdr-err".into();
+        }
+        if self.0 <= 1 {
+            let mut d = top.data_reader();
+            let out: Vec<String> = self.1.iter().map(|&op| sync_op(&mut d, op)).collect();
+            return out.join(";");
+        }
+        let mut child = top.child_reader();
+        if child.read_any_header().is_err() {
+            return "hdr-err".into();
+        }
+        let mut d = child.data_reader();
+        let out: Vec<String> = self.1.iter().map(|&op| sync_op(&mut d, op)).collect();
+        out.join(";")
+    }
+}
+#[cfg(verif_readerhook)]
+fn cdr(args: &[&str]) -> String {
+    let depth: usize = args[0].parse().unwrap();
+    let (stack, caps, data, ops) = (args[1], parse_caps(args[2]), common::unhex(args[3]), parse_ops(args[4]));
+    let mut it = caps.into_iter();
+    sync_stack(stack, data, 0, &mut it, CdrJob(depth, ops))
+}
+#[cfg(not(verif_readerhook))]
+fn cdr(_args: &[&str]) -> String {
+    "no-hook".into()
 }
 
 /// Rust-side exhaustive sweep (search aid / thorough tier): every operation sequence of length 1..=depth over
